@@ -136,7 +136,7 @@ func gen(t *rapid.T) *Case {
 	c := &Case{Leaf: rapid.SampledFrom(leafNames()).Draw(t, "leaf")}
 	n := typesNode.Child(c.Leaf)
 	c.Vals = genVals(t, n, "v")
-	c.Mode = rapid.SampledFrom([]string{"pure", "pure", "pipeline", "equal"}).Draw(t, "mode")
+	c.Mode = rapid.SampledFrom([]string{"pure", "pure", "pipeline", "equal", "pure", "pure", "pipeline", "equal", "drift"}).Draw(t, "mode")
 	switch c.Mode {
 	case "pure":
 		c.In = rapid.SampledFrom([]string{"typed", "string", "xml", "gnmi", "gnmi-ascii"}).Draw(t, "in")
@@ -147,6 +147,19 @@ func gen(t *rapid.T) *Case {
 		if rapid.Bool().Draw(t, "same") {
 			c.Vals2 = c.Vals
 		} else {
+			c.Vals2 = genVals(t, n, "w")
+		}
+	}
+	if c.Mode == "drift" {
+		// the device reports Vals2 for a leaf the stored intent holds Vals for
+		c.In = "typed"
+		switch k := rapid.IntRange(0, 3).Draw(t, "drift-kind"); {
+		case k == 0:
+			c.Vals2 = c.Vals
+		case k == 1 && n.Kind == vlib.KLeafList && len(c.Vals) >= 2 && (n.Type == "string" || n.Type == "union"):
+			// one element that reads like the intended elements joined
+			c.Vals2 = []string{strings.Join(c.Vals, ",")}
+		default:
 			c.Vals2 = genVals(t, n, "w")
 		}
 	}
@@ -744,6 +757,68 @@ func execPipeline(ctx context.Context, n *vlib.Node, c *Case) *vlib.Failure {
 	return nil
 }
 
+// execDrift: the comparison the transaction pipeline itself makes between the value the device reported and the
+// value a stored intent holds. The intent is stored and delivered, the running store then receives another report
+// for the leaf (Vals2), the intent is re-submitted verbatim: different data must be corrected (the intended value is
+// sent again), the same datum must not be sent.
+func execDrift(ctx context.Context, n *vlib.Node, c *Case) *vlib.Failure {
+	env := vlib.MustEnv()
+	want, reported := den(n, c.Vals), den(n, c.Vals2)
+	if n.Type == "leafref" {
+		vlib.GetStats("C12").Discard("drift-mode-skips-leafrefs")
+		return nil
+	}
+	h, err := vlib.NewHistEnv(ctx, env, &vlib.HistCase{Universe: "plain", Palette: []string{"a", "b", "c"}}, vlib.HistEnvOpts{})
+	if err != nil {
+		harnessErr(err)
+	}
+	defer h.DS.Stop()
+	path := vlib.P("types", n.Name)
+	ri := vlib.ResolvedIntent{Name: "own0", Kind: "set", Prio: 10, Explicit: vlib.Conf{path.Canon(): want}, Form: "typed"}
+	submit := func(tx string) (*sdcpb.TransactionSetResponse, *vlib.Failure) {
+		req, err := vlib.BuildIntentRequest(ri)
+		if err != nil {
+			harnessErr(err)
+		}
+		rsp, err := h.SetRequest(tx, []*sdcpb.TransactionIntent{req}, nil, false)
+		if err != nil || len(vlib.IntentErrorsOf(rsp)) > 0 {
+			return nil, vlib.Failf(sig("drift-refused", n, c), "TransactionSet %s of leaf %s = %q was refused: %v %v", tx, n.Name, want, err, vlib.IntentErrorsOf(rsp))
+		}
+		_ = h.DS.TransactionConfirm(ctx, tx)
+		return rsp, nil
+	}
+	if _, f := submit("t1"); f != nil {
+		return f
+	}
+	if got := h.Dev.Snapshot()[path.Canon()]; got != want {
+		return vlib.Failf(sig("pipeline-device-proto", n, c), "leaf %s = %q: device holds %q", n.Name, want, got)
+	}
+	if err := vlib.WriteConfigStore(ctx, env.Cache, h.DSName, vlib.Conf{path.Canon(): reported}); err != nil {
+		harnessErr(err)
+	}
+	calls := h.Dev.Calls()
+	if _, f := submit("t2"); f != nil {
+		return f
+	}
+	sent, sentVal := false, ""
+	if h.Dev.Calls() > calls {
+		for _, u := range h.Dev.LastRecord().Updates {
+			if u.Path.Canon() == path.Canon() {
+				sent, sentVal = true, u.Den
+			}
+		}
+	}
+	switch {
+	case want == reported && sent:
+		return vlib.Failf(sig("same-but-unequal:drift", n, c), "leaf %s: the intent holds %q, the device reported %q (the same datum), the re-applied intent sends the value again (%q)", n.Name, c.Vals, c.Vals2, sentVal)
+	case want != reported && !sent:
+		return vlib.Failf(sig("equal-but-different:drift", n, c), "leaf %s: the intent holds %q, the device reported %q (a different datum), the re-applied intent does not correct it (device calls %d -> %d)", n.Name, c.Vals, c.Vals2, calls, h.Dev.Calls())
+	case sent && sentVal != want:
+		return vlib.Failf(sig("pipeline-device-proto", n, c), "leaf %s: correction carries %q, intended is %q", n.Name, sentVal, want)
+	}
+	return nil
+}
+
 func Exec(c *Case) (bool, []string, *vlib.Failure) {
 	ctx := context.Background()
 	n := typesNode.Child(c.Leaf)
@@ -760,6 +835,8 @@ func Exec(c *Case) (bool, []string, *vlib.Failure) {
 		f = execPure(ctx, n, c)
 	case "equal":
 		f = execEqual(ctx, n, c)
+	case "drift":
+		f = execDrift(ctx, n, c)
 	default:
 		f = execPipeline(ctx, n, c)
 	}
